@@ -7,7 +7,7 @@
 (* says the results and the state must be in exp, the logged values in     *)
 (* obs, and the invariant Conforms compares them.  Nothing is inferred     *)
 (* from the plan; nothing but arguments is taken from the trace.           *)
-EXTENDS ApiSponge, ApiAead, ApiIsap, ApiKdf, Conc, Json, IOUtils, TLC
+EXTENDS ApiSponge, ApiCpp, ApiKdf, Conc, Json, IOUtils, TLC
 
 T == ndJsonDeserialize(IOEnv.TRACE)
 
@@ -273,7 +273,36 @@ TrIsapKeyFree == IsEv("isapkey.free") /\ LET ev == T[l] IN Step(Del(ev.obj), <<>
 
 IsapNext == TrIsapKeyInit \/ TrIsapKeyLoad \/ TrIsapKeySave \/ TrIsapKeyEnc \/ TrIsapKeyDec \/ TrIsapKeyFree
 PrngNext == FALSE
-MiscNext == FALSE
+(* C14/C17: C++ cipher objects                                             *)
+CppSet(ev, o) == Put(ev.obj, [kind |-> "cpp", cls |-> o.cls, key |-> o.key, nonce |-> o.nonce])
+CppO(ev) == [cls |-> objs[ev.obj].cls, key |-> objs[ev.obj].key, nonce |-> objs[ev.obj].nonce]
+
+TrCppNew == IsEv("cpp.new") /\ LET ev == T[l]  o == CppNew(ev.cls, ev.how, ev.key, ev.len)  sc == CppScheme(ev.cls) IN
+  Step(CppSet(ev, o), <<sc.klen, 16, 16>>, <<ev.key_size, ev.tag_size, ev.nonce_size>>)
+TrCppSetKey == IsEv("cpp.set_key") /\ LET ev == T[l]  r == CppSetKey(CppO(ev), ev.key, ev.len, ev.keynull = 1) IN
+  Step(CppSet(ev, r.o), <<r.ret>>, <<ev.ret>>)
+TrCppSetNonce == IsEv("cpp.set_nonce") /\ LET ev == T[l] IN
+  Step(CppSet(ev, [CppO(ev) EXCEPT !.nonce = SetNonce(ev.n)]), <<>>, <<>>)
+TrCppSetCounter == IsEv("cpp.set_counter") /\ LET ev == T[l] IN
+  Step(CppSet(ev, [CppO(ev) EXCEPT !.nonce = SetCounter(ev.ctr)]), <<>>, <<>>)
+\* encryption uses the current nonce and then advances it by exactly one
+TrCppEnc == IsEv("cpp.enc") /\ LET ev == T[l]  o == CppO(ev)  ct == CppEncrypt(o, ev.ad, ev.m) IN
+  Step(CppSet(ev, [o EXCEPT !.nonce = NonceInc(o.nonce)]), <<Len(ev.m) + 16, ct, 1>>, <<ev.ret, ev.out, ev.guard>>)
+\* successful decryption advances the nonce; a failed one leaves it unchanged
+TrCppDec == IsEv("cpp.dec") /\ LET ev == T[l]  o == CppO(ev) IN
+  IF Len(ev.ct) < 16 THEN Step(objs, <<-1, 1>>, <<ev.ret, ev.guard>>)
+  ELSE LET r == CppDecrypt(o, ev.ad, ev.ct) IN
+       IF r.ok THEN Step(CppSet(ev, [o EXCEPT !.nonce = NonceInc(o.nonce)]), <<Len(ev.ct) - 16, r.m, 1>>, <<ev.ret, ev.out, ev.guard>>)
+       ELSE Step(objs, <<-1, 1, 1, 1>>, <<ev.ret, IF ev.form = "ptr" THEN ev.allzero ELSE 1, ev.empty_on_fail, ev.guard>>)
+TrCppClear == IsEv("cpp.clear") /\ LET ev == T[l]  o == CppO(ev) IN
+  Step(CppSet(ev, [o EXCEPT !.key = ZeroKeyOf(CppScheme(o.cls)), !.nonce = Zero16]), <<>>, <<>>)
+TrCppSaveKey == IsEv("cpp.save_key") /\ LET ev == T[l] IN
+  Step(objs, <<CppSavedKey(CppO(ev)), 1>>, <<ev.out, ev.guard>>)
+TrCppRandomize == IsEv("cpp.randomize_key") /\ Step(objs, <<>>, <<>>)     \* value-preserving (checked by the following packets)
+TrCppDel == IsEv("cpp.del") /\ LET ev == T[l] IN Step(Del(ev.obj), <<>>, <<>>)
+
+MiscNext == TrCppNew \/ TrCppSetKey \/ TrCppSetNonce \/ TrCppSetCounter \/ TrCppEnc \/ TrCppDec \/ TrCppClear
+            \/ TrCppSaveKey \/ TrCppRandomize \/ TrCppDel
 
 -----------------------------------------------------------------------------
 Next == TrReset \/ PermNext \/ SpongeNext \/ AeadNext \/ AeadIncNext \/ KdfNext \/ IsapNext \/ PrngNext \/ MiscNext
